@@ -119,7 +119,28 @@ def program(spec, pname, tier, cap):
         hs.append(Harness(name="h_custom_err_witness_%d" % (ci // 3), body="\n".join(wb), unwind=20, kind="witness",
                           desc="fixed inputs derived from the spellings (case flips, outer whitespace, one-char edits, look-alikes): %s" % ", ".join(repr(w) for w in chunk),
                           bound={"inputs": chunk}, functions=fns))
+    hs.append(Harness(name="h_e2_replay", native_only=True, desc="replay vehicle for E2 models: any valid UTF-8 input up to 64 bytes",
+                      body="    let ss = SymStr::<64>::utf8();\n    let c0 = calls();\n    let r = <%s as core::str::FromStr>::from_str(ss.as_str());\n    let c1 = calls();\n"
+                           "    if ss.len <= 16 { check_custom(&r, oracle(ss.bytes()), ss.bytes(), c0, c1); } else { assert!(r.is_ok() == oracle(ss.bytes()).is_some()); }" % E))
     return Program(name=pname, enum_src=src, helper_src=helper, api_src=api, harnesses=hs, summary=render_enum(spec), role=spec.role, note=spec.note)
+
+
+specs_cache = {}
+
+E2_ERR = """pub struct MyErr(pub usize);
+pub fn my_err(s: &str) -> MyErr { MyErr(s.len()) }
+pub fn not_found(s: &str) -> MyErr { MyErr(s.len()) }
+pub fn parse_error(s: &str) -> MyErr { MyErr(s.len()) }
+pub fn fallback(s: &str) -> MyErr { MyErr(s.len()) }
+pub fn from_str_err(s: &str) -> MyErr { MyErr(s.len()) }
+"""
+
+
+def e2(run, programs, tier, seed, known):
+    import e2str
+    specs = [s for s in specs_cache.get((tier, seed), []) if not s.generics]
+    return e2str.run_e2(run, programs, specs, E2_ERR, ["my_err", "not_found", "parse_error", "fallback", "from_str_err"],
+                        lambda sp: sp.parse_err_fn, known)
 
 
 def build(tier, seed):
@@ -137,6 +158,7 @@ def build(tier, seed):
     for i, s in enumerate(specs):
         s.parse_err_fn = ["my_err", "not_found", "parse_error", "fallback", "from_str_err"][i % 5]
     programs = [program(s, "p%03d" % i, tier, cap) for i, s in enumerate(specs)]
+    specs_cache[(tier, seed)] = specs
     return {
         "programs": programs,
         "harness_timeout": 600 if tier == "quick" else 2400,
